@@ -130,7 +130,14 @@ def first_true(iterable: Iterable[T], default: T,
     return next(filter(pred, iterable), default)
 
 
-def _constant(value: object) -> ast.Constant:
+def _constant(value: object) -> ast.expr:
+    if (isinstance(value, (int, float, np.integer, np.floating))
+            and not isinstance(value, (bool, np.bool_))
+            and value < 0):
+        # ast.unparse does not parenthesize negative constants:
+        # Constant(-2) ** a would be emitted as '-2 ** a', i.e. -(2 ** a).
+        return ast.UnaryOp(ast.USub(),
+                           ast.Constant(cast("_ConstantValue", -value)))
     return ast.Constant(cast("_ConstantValue", value))
 
 
